@@ -75,7 +75,7 @@ def main(a):
         diff = os.path.join(out, 'm%s.diff' % k)
         demo = os.path.join(out, 'm%s_demo.py' % k)
         note = os.path.join(out, 'm%s.txt' % k)
-        sid = '%s-%sm%s' % (prop, 'w2' if '/sb-' in src else 'w3' if '/sc-' in src else 'w4' if '/sd-' in src else 'w5' if '/se-' in src else '', k)
+        sid = '%s-%sm%s' % (prop, 'w2' if '/sb-' in src else 'w3' if '/sc-' in src else 'w4' if '/sd-' in src else 'w5' if '/se-' in src else 'w6' if '/sf-' in src else '', k)
     wt = '/tmp/vp-seed-%s' % sid
     sh('git -C /repo worktree remove --force %s' % wt)
     rc, o = sh('git -C /repo worktree add -q %s HEAD' % wt)
